@@ -76,8 +76,7 @@ def expr(n):
             return '{}'
         if name == '__getitem__' and len(ch) == 2:
             return '%s[%s]' % (primary(ch[0]), index(ch[1]))
-        if name in ('__setitem__', '__setitem_with_op__', '__delitem__') and statement_form(n):
-            raise NotExpressible('statement in expression position')
+        # in expression position the index helpers are ordinary calls by name (same tree)
         return '%s(%s)' % (name, ', '.join(expr(c) for c in ch))
     raise NotExpressible('node kind %s in expression position' % k)
 
